@@ -68,6 +68,40 @@ def searchS (a b n m U : Nat) : Nat → Nat → Nat → Nat
 /-- candidate threshold for the general case (validated by `certOK` before use) -/
 def findT (a b n m U : Nat) : Nat := U - searchS a b n m U (Nat.log2 U + 2) 0 U
 
+/-! ### exact-root certificate (the code's exact rational fast path, any denominator) -/
+
+/-- `exactOK`: `a = r^m`, `b = s^m` and `T = ⌊U·(s^n − r^n)/s^n⌋`.  The powers `r^m`, `s^m` are as
+    large as the inputs `a`, `b` themselves, so this is feasible for every m for which it can hold. -/
+def exactOK (a b n m U r s T : Nat) : Bool :=
+  decide (0 < s) && decide (r ≤ s) && decide (0 < m) && decide (r ^ m = a) && decide (s ^ m = b) &&
+  decide (T = U * (s ^ n - r ^ n) / s ^ n)
+
+/-- ⌊x^(1/m)⌋ by bisection on [0, 2^(⌊log2 x / m⌋+1)]; only meaningful for m ≤ log2 x + 1 -/
+def irootSearch (x m : Nat) : Nat → Nat → Nat → Nat
+  | 0, lo, _ => lo
+  | fuel + 1, lo, hi =>
+    if hi ≤ lo + 1 then lo else
+    let mid := (lo + hi) / 2
+    if mid ^ m ≤ x then irootSearch x m fuel mid hi else irootSearch x m fuel lo mid
+
+/-- candidate m-th root (1 for x = 1; 0 when m is too large for any root ≥ 2 to exist) -/
+def iroot (x m : Nat) : Nat :=
+  if x ≤ 1 then x
+  else if m = 0 ∨ m > Nat.log2 x then 1
+  else irootSearch x m (Nat.log2 x + 2) 1 (2 ^ (Nat.log2 x / m + 1))
+
+/-- candidate (r, s, T) for the exact-root certificate -/
+def findExact (a b n m U : Nat) : Option (Nat × Nat × Nat) :=
+  -- b ≥ 2 here (a < b), so b = s^m needs s ≥ 2 and therefore m ≤ log2 b: nothing larger is ever
+  -- exponentiated (huge exponents are refused by the runtime, even for base 1)
+  if m = 0 ∨ m > Nat.log2 b ∨ n > m then none else
+  let r := iroot a m
+  let s := iroot b m
+  if 0 < s then
+    let t := U * (s ^ n - r ^ n) / s ^ n
+    if exactOK a b n m U r s t then some (r, s, t) else none
+  else none
+
 /-- big-endian bytes to integer (`VRFOutputToInt`) -/
 def beNat (b : List UInt8) : Nat := b.foldl (fun acc x => acc * 256 + x.toNat) 0
 
